@@ -18,6 +18,11 @@ CHECKS = {
         technique='trace validation: reflected tree + Walker().walk/filter/extract order of real parse trees validated by the TLA+ pre-order machine Traversal.tla in TLC batches; trees come from TLC-derived sentences (exhaustive themes + tlc -simulate deep derivations)',
         text='Every recorded walk must be a behaviour of the pre-order traversal machine over the tree found by attribute reflection (each stored node exactly once, parents first, subtrees contiguous, second walk identical, filter = walk-then-select, extract = n-th match or TypeError); TLC gives a verdict per tree naming the failing clause.  Trees cover every node kind with every optional-part mask the derivation machine produced.',
         note='Trusted: the reflection (vars(node), _children_list) in harness/c16.py; sibling order and comment nodes are not judged.'),
+    'C06': dict(
+        category='model_checking', design_ref='5 (C06)',
+        technique='trace validation: token streams recorded from the real Lexer validated by the TLA+ machine LexTrace.tla (extends LineCol.tla) in TLC batches; inputs = all short strings over a lexical character alphabet + TLC-derived programs with rich layout',
+        text='Each recorded token stream must be a behaviour of the LexTrace machine: tokens ordered and non-overlapping, every gap only white space / line terminators, every token at the line and column that LineCol counting (LF, CR, CRLF once, LS, PS, also inside tokens) reaches at its offset, text = input substring, longest punctuator, keyword iff exact spelling; TLC gives a verdict per stream naming the failing clause and token.',
+        note='Trusted: character classification (unicodedata), substring/munch/keyword facts computed in harness/c06.py and asserted by the trace spec; AUTOSEMI tokens (no text) are not judged.'),
 }
 
 NOT_YET = {}
